@@ -1,5 +1,113 @@
-import JV.Model.Pointer
-import JV.Spec.Rfc6901
+/-
+  C14 — JSON Pointer operations follow RFC 6901.
+
+  Model : JV.Model.Pointer (jsonpointer.hpp: parse/to_string state machine, resolve, get, contains,
+          add, add_if_absent, replace, remove, create_if_missing; state-passing: the document after
+          an error is part of the result), for both object flavours.
+  Spec  : JV.Spec.Rfc6901.
+  Helper lemmas: JV.Proofs.PointerText, JV.Proofs.PointerOps, JV.Proofs.Number.
+-/
+import JV.Proofs.PointerText
+import JV.Proofs.PointerOps
 namespace JV.Props.C14
-theorem placeholder : True := trivial
+open JV Model Model.Pointer
+
+/-- printing any token list and parsing the text back is the identity (every byte value, empty
+    tokens, `~` and `/` inside tokens) -/
+theorem parse_toString (ts : List Bytes) : parse (Pointer.toString ts) = .ok ts :=
+  parse_toString_aux ts
+
+/-- parsing a pointer and printing it back is the identity on accepted pointers -/
+theorem toString_parse (s : Bytes) (ts : List Bytes) (h : parse s = .ok ts) : Pointer.toString ts = s :=
+  toString_parse_aux s ts h
+
+/-- `~0`/`~1` escaping exactly as specified: the printed form of a token contains no raw `/`,
+    and `~` only in the two escape sequences -/
+theorem escape_exact (c : Nat) :
+    escapeToken [c] = (if c = 126 then [126, 48] else if c = 47 then [126, 49] else [c]) := by
+  by_cases h1 : c = 126
+  · simp [escapeToken, h1]
+  · by_cases h2 : c = 47
+    · simp [escapeToken, h2]
+    · simp [escapeToken, h1, h2]
+
+/-- array-index tokens: accepted exactly when RFC 6901's `array-index` syntax holds and the value fits
+    `size_t`; never for `-`, signs, blanks, leading zeros -/
+theorem index_token_sound (tok : Bytes) (n : Nat) (h : decToIndex tok = some n) :
+    Spec.Rfc6901.arrayIndex tok = some n :=
+  decToIndex_sound h
+
+theorem index_token_complete (tok : Bytes) (n : Nat) (h : Spec.Rfc6901.arrayIndex tok = some n) (hn : n < 2 ^ 64) :
+    decToIndex tok = some n :=
+  decToIndex_complete h hn
+
+/-- `get` returns a value only if RFC 6901 evaluation yields that value … -/
+theorem get_sound_wrt_rfc (d v : JVal) (ts : List Bytes) (h : get d ts = .ok v) : Spec.Rfc6901.eval d ts = some v :=
+  get_sound ts d v h
+
+/-- … and whenever RFC 6901 evaluation yields a value, `get` returns it (arrays shorter than 2^64). -/
+theorem get_complete_wrt_rfc (d v : JVal) (ts : List Bytes) (hs : SmallArrays d)
+    (h : Spec.Rfc6901.eval d ts = some v) : get d ts = .ok v :=
+  get_complete ts d v hs h
+
+/-- `contains` is `get` succeeding -/
+theorem contains_iff (d : JVal) (ts : List Bytes) : contains d ts = true ↔ ∃ v, get d ts = .ok v := by
+  unfold contains
+  cases get d ts with
+  | ok v => simp
+  | error e => simp
+
+/-- an operation that reports an error leaves the document untouched — for add, add_if_absent,
+    replace (also with create_if_missing, which creates intermediate members in place) and remove,
+    for sorted and insertion-ordered objects. -/
+theorem error_leaves_doc (ordered create : Bool) (f : Final) (hf : f.isRemove = true → create = false)
+    (d : JVal) (ts : List Bytes) (h : (apply ordered create f d ts).1 ≠ none) :
+    (apply ordered create f d ts).2 = d := by
+  cases ts with
+  | nil => cases f <;> simp_all [apply]
+  | cons tok rest => exact modifyAt_err ordered create f hf rest d tok h
+
+/-- the string overloads do not touch the document on a syntax error either -/
+theorem error_leaves_doc_str (ordered create : Bool) (f : Final) (hf : f.isRemove = true → create = false)
+    (d : JVal) (loc : Bytes) (h : (applyStr ordered create f d loc).1 ≠ none) :
+    (applyStr ordered create f d loc).2 = d := by
+  unfold applyStr at h ⊢
+  cases hp : parse loc with
+  | error e => simp
+  | ok ts =>
+    rw [hp] at h
+    exact error_leaves_doc ordered create f hf d ts h
+
+/-- after a successful add / add_if_absent / replace at a location whose last token is not `-`,
+    `get` at that location returns exactly the value written -/
+theorem write_then_get (ordered create : Bool) (f : Final) (v : JVal)
+    (hf : f = .add v ∨ f = .addIfAbsent v ∨ f = .replace v) (d : JVal) (ts : List Bytes)
+    (hlast : ts.getLast? ≠ some [45]) (hok : (apply ordered create f d ts).1 = none) :
+    get (apply ordered create f d ts).2 ts = .ok v := by
+  cases ts with
+  | nil => rcases hf with hf | hf | hf <;> subst hf <;> simp [apply, Pointer.get]
+  | cons tok rest => exact modifyAt_then_get ordered create f v hf rest d tok hlast hok
+
+/-- `-` appends: adding at the pointer "/" ++ "-" of an array makes the value its last element -/
+theorem dash_appends (ordered create : Bool) (xs : List JVal) (v : JVal) :
+    apply ordered create (.add v) (.arr xs) [[45]] = (none, .arr (xs ++ [v])) := by
+  simp [apply, modifyAt, finalStep, isDash]
+
+/-- `add` at an index inserts and shifts, `replace` overwrites in place -/
+theorem add_inserts_replace_overwrites (ordered create : Bool) (xs : List JVal) (v : JVal) (tok : Bytes) (i : Nat)
+    (hi : decToIndex tok = some i) (hlt : i < xs.length) (hd : isDash tok = false) :
+    apply ordered create (.add v) (.arr xs) [tok] = (none, .arr (xs.take i ++ v :: xs.drop i)) ∧
+    apply ordered create (.replace v) (.arr xs) [tok] = (none, .arr (xs.set i v)) := by
+  have h1 : ¬ i > xs.length := by omega
+  have h2 : ¬ i = xs.length := by omega
+  have h3 : ¬ i ≥ xs.length := by omega
+  simp [apply, modifyAt, finalStep, hd, hi, h1, h2, h3, insertAt]
+
+/-! ### non-vacuity -/
+
+example : parse [47, 97, 126, 49, 98, 47, 126, 48, 47] = .ok [[97, 47, 98], [126], []] := by rfl
+example : decToIndex [49, 48] = some 10 ∧ decToIndex [48, 49] = none ∧ decToIndex [45] = none := by decide
+example : (apply false true (.add (.int 7)) (.obj [([97], .arr [.int 1])]) [[98], [99]]).1 = none := by decide
+example : (apply false true (.add (.int 7)) (.obj [([97], .arr [.int 1])]) [[97], [120], [99]]).1 ≠ none := by decide
+
 end JV.Props.C14
